@@ -34,10 +34,30 @@ def gen_cases(rng, tier):
         if spec["dyn"] == "ode" and rng.random() < 0.5:
             spec["objective"] = ocpgen.gen_objective(rng, spec, 1, allow=["integral"])
         cases.append({"spec": spec, "K": K, "seed": rng.getrandbits(32)})
+    # B-spline signals inside the right-hand side
+    nh = 30 if tier == "quick" else 450
+    for i in range(nh):
+        N = rng.choice([1, 2, 3, 4])
+        kinds = ["bpar", "bvar", "par", "parc"]
+        use = {k: rng.random() < 0.5 for k in kinds}
+        if not (use["bpar"] or use["bvar"]):
+            use[rng.choice(["bpar", "bvar"])] = True
+        order = list(kinds)
+        rng.shuffle(order)
+        bpo, bvo = rng.choice([0, 1, 2, 3]), rng.choice([0, 1, 2, 3])
+        cases.append({"kind": "signals", "cls": rng.choice(["MS", "MS", "SS"]), "intg": rng.choice(["rk", "rk", "expl_euler"]),
+                      "N": N, "M": rng.choice([1, 2, 3]), "use": use, "order": order, "bp_order": bpo, "bv_order": bvo,
+                      "bp_coef": [ocpgen.rnd(rng, -2, 2) for _ in range(N + bpo)], "p_val": ocpgen.rnd(rng, -2, 2),
+                      "pc_val": [ocpgen.rnd(rng, -2, 2) for _ in range(N)],
+                      "weights": {"x": -0.7, "u": 1.0, "bpar": 1.5, "bvar": -2.0, "par": 0.3, "parc": 0.8},
+                      "grid": ocpgen.gen_grid(rng, ["uniform", "geometric", "function"], 3),
+                      "t0": ocpgen.rnd(rng, -1, 1, 2), "T": ocpgen.rnd(rng, 0.4, 3, 2), "seed": rng.getrandbits(32)})
     return cases
 
 
 def run_case(case):
+    if case.get("kind") == "signals":
+        return run_signals(case)
     from ..gen import build
     from ..obs import nlp, coords
     from ..ref import model
@@ -210,4 +230,145 @@ def run_case(case):
         except C.RockitRaised as e:
             res["violations"].append(C.exc_violation(ID, e, "discrete_system"))
     res["nontrivial"] = res["evals"] > 0
+    return res
+
+
+def run_signals(case):
+    """B-spline parameters / variables inside the right-hand side under Multiple- and SingleShooting (rk, expl_euler): every
+    interval end state is M steps of the scheme with the spline evaluated (Cox-de Boor) at the absolute time of every stage.
+    A second recursion freezes every signal at its value at the interval's start node: a transcription that matches that
+    one (and not the exact one) is the recorded finding, anything else is a new violation."""
+    import casadi as ca
+    import rockit
+    from ..gen import build
+    from ..obs import nlp
+    from .c17 import design, spline_eval
+    N, M, cls, intg = case["N"], case["M"], case["cls"], case["intg"]
+    use, wt = case["use"], case["weights"]
+    res = {"sig": "signals|%s-%s|N%dM%d|%s|%s" % (cls, intg, N, M, C.grid_tag(case["grid"]), "+".join(sorted(k for k in use if use[k]))),
+           "evals": 0, "violations": [], "counters": {"shooting_steps": 0, "spline_points": 0}}
+    rng = np.random.default_rng(case["seed"])
+    try:
+        ocp = rockit.Ocp(t0=case["t0"], T=case["T"])
+        x = ocp.state()
+        u = ocp.control()
+        syms = {}
+        for kind in case["order"]:
+            if not use[kind]:
+                continue
+            if kind == "bpar":
+                sy = ocp.parameter(grid="bspline", order=case["bp_order"])
+                ocp.set_value(sy, ca.DM(np.array(case["bp_coef"]).reshape(1, -1)))
+            elif kind == "bvar":
+                sy = ocp.variable(grid="bspline", order=case["bv_order"])
+            elif kind == "par":
+                sy = ocp.parameter()
+                ocp.set_value(sy, case["p_val"])
+            else:
+                sy = ocp.parameter(grid="control")
+                ocp.set_value(sy, ca.DM(np.array(case["pc_val"]).reshape(1, -1)))
+            syms[kind] = sy
+        rhs = wt["x"] * x + wt["u"] * u
+        for kind, sy in syms.items():
+            # the signal enters non-linearly as well: the stage times matter
+            rhs = rhs + wt[kind] * sy + (0.2 * sy ** 2 if kind in ("bpar", "bvar") else 0)
+        ocp.set_der(x, rhs)
+        ocp.add_objective(ocp.sum(u ** 2 + sum(ca.sumsqr(sy) for k_, sy in syms.items() if k_ == "bvar")) + ocp.at_tf(x) ** 2)
+        Meth = rockit.MultipleShooting if cls == "MS" else rockit.SingleShooting
+        ocp.method(Meth(N=N, M=M, intg=intg, grid=build.make_grid(case["grid"])))
+        ocp.solver("ipopt", {"ipopt.print_level": 0, "print_time": False})
+        view = C.call("transcribe", nlp.NlpView, ocp)
+        outs = [C.call("sample", ocp.sample, x, grid="control")[1], C.call("sample", ocp.sample, u, grid="control")[1],
+                C.call("sample", ocp.sample, ocp.t, grid="control")[1]]
+        names = ["xc", "uc", "tc"]
+        if "bvar" in syms:
+            outs.append(C.call("sample(refine)", ocp.sample, syms["bvar"], grid="integrator", refine=case["bv_order"] + 2)[1])
+            names.append("bvar")
+        F = ca.Function("rb", [view.x, view.p], [ca.MX(o) for o in outs])
+    except C.RockitRaised as e:
+        res["violations"].append(C.exc_violation(ID, e, "signals"))
+        return res
+    for it in range(3):
+        w = view.random_point(rng, 1.0)
+        vals = {n: np.array(v, dtype=float) for n, v in zip(names, F(w, view.p0))}
+        xc, uc, tc = vals["xc"].reshape(-1), vals["uc"].reshape(-1), vals["tc"].reshape(-1)
+        coef = {}
+        if "bpar" in syms:
+            coef["bpar"] = np.array(case["bp_coef"], dtype=float).reshape(1, -1)
+        if "bvar" in syms:
+            R_ = case["bv_order"] + 2
+            tt = np.concatenate([np.linspace(tc[k], tc[k + 1], M * R_ + 1)[:-1] for k in range(N)] + [tc[-1:]])
+            Bm = design(list(tc), case["bv_order"], tt)
+            sol_, *_ = np.linalg.lstsq(Bm.T, vals["bvar"].reshape(-1), rcond=None)
+            if np.max(np.abs(Bm.T @ sol_ - vals["bvar"].reshape(-1))) > 1e-8 * (1 + np.max(np.abs(sol_))):
+                res["status"] = "inconclusive"
+                res["note"] = "bspline variable samples are not in the spline space (subject of part C)"
+                return res
+            coef["bvar"] = sol_.reshape(1, -1)
+
+        def f(k, t, xv, frozen=False):
+            out = wt["x"] * xv + wt["u"] * uc[k]
+            for kind in syms:
+                if kind in coef:
+                    cg = coef[kind]
+                    dg = cg.shape[1] - N
+                    ts_ = tc[k] if frozen else min(max(t, tc[k]), tc[k + 1])
+                    # inside interval k a degree-0 signal is its k-th coefficient; t is clipped to the interval (ulp)
+                    sv = float(cg[0][k]) if dg == 0 else float(spline_eval(list(tc), dg, cg, np.array([ts_]))[0][0])
+                    out += wt[kind] * sv + 0.2 * sv ** 2
+                    res["counters"]["spline_points"] += 1
+                elif kind == "par":
+                    out += wt[kind] * case["p_val"]
+                else:
+                    out += wt[kind] * case["pc_val"][k]
+            return out
+
+        def recursion(frozen):
+            exp_, worst_ = [], 0.0
+            for k in range(N):
+                h = (tc[k + 1] - tc[k]) / M
+                xv = xc[k]
+                for i in range(M):
+                    t = tc[k] + i * h
+                    if intg == "expl_euler":
+                        xv = xv + h * f(k, t, xv, frozen)
+                    else:
+                        k1 = f(k, t, xv, frozen)
+                        k2 = f(k, t + h / 2, xv + h / 2 * k1, frozen)
+                        k3 = f(k, t + h / 2, xv + h / 2 * k2, frozen)
+                        k4 = f(k, t + h, xv + h * k3, frozen)
+                        xv = xv + h / 6 * (k1 + 2 * k2 + 2 * k3 + k4)
+                    res["counters"]["shooting_steps"] += 1
+                exp_.append(("eq", abs(xc[k + 1] - xv)))
+                worst_ = max(worst_, abs(xc[k + 1] - xv))
+            return exp_, worst_
+
+        def agrees(exp_, worst_):
+            if cls == "SS":
+                return worst_ <= 1e-8 * (1 + np.max(np.abs(xc)))
+            _, atoms = view.atoms(w)
+            obs = [(a[0], a[1]) for a in atoms if a[0] == "eq"]
+            un_e, un_o = nlp.match_multiset(exp_, obs, scale=1 + max(v for _, v in exp_), rtol=1e-8)
+            return not (un_e or un_o)
+
+        res["evals"] += 1
+        exact = recursion(False)
+        if agrees(*exact):
+            continue
+        what = "reported SingleShooting states" if cls == "SS" else "gap-closing rows"
+        if agrees(*recursion(True)):
+            res["violations"].append({
+                "kind": "signals-frozen", "mech": "C01|bspline-signal-frozen-at-interval-start-under-shooting",
+                "detail": "%s follow the %s recursion with every B-spline signal held at its value at the start node of the "
+                          "control interval, not evaluated at the stage times (kinds %s, N=%d, M=%d; exact recursion off by "
+                          "%.3g)" % (what, intg, sorted(syms), N, M, exact[1])})
+        else:
+            res["violations"].append({
+                "kind": "shooting-with-signals", "mech": "C01|shooting-with-bspline-signals|" + cls,
+                "detail": "%s match neither the %s recursion with the splines at the stage times nor the one with the "
+                          "signals held at the interval's start node (kinds %s, order %s, off by %.3g)" % (
+                              what, intg, sorted(syms), [k_ for k_ in case["order"] if use[k_]], exact[1])})
+        return res
+    res["nontrivial"] = res["counters"]["spline_points"] > 0
+    res["sample"] = {"N": N, "M": M, "method": cls, "intg": intg, "kinds": sorted(syms)}
     return res
